@@ -687,6 +687,14 @@ theorem runCbs_noraise (now : Nat) : ∀ (cbs : List Cb) (log : List (Nat × Nat
       (fun x hx => h x (List.mem_cons_of_mem _ hx))
     simp [runCbs, hc, this, List.append_assoc]
 
+theorem runAll_spec (now : Nat) : ∀ (cbs : List Cb) (log : List (Nat × Nat)),
+    runAll now cbs log
+      = (log ++ cbs.flatMap (fun x => (x.id, now) :: x.adds.map (fun a => (a, now))), cbs.any Cb.raises)
+  | [], log => by simp [runAll]
+  | c :: rest, log => by
+    have := runAll_spec now rest (log ++ (c.id, now) :: c.adds.map (fun a => (a, now)))
+    simp [runAll, this, List.append_assoc]
+
 /-! ### definitional lemmas
 
 One-step unfoldings of the model's definitions: they record what the transcription says (and are used as
